@@ -17,7 +17,9 @@ PROP = "C07"
 LOADERS = {"torch._load_from_bytes": ("torch.storage", "_load_from_bytes"), "pickle.loads": ("pickle", "loads"),
            "_pickle.loads": ("_pickle", "loads")}
 CONTAINERS = ("bare", "legacy", "zip")
-LEAVES = {"allowed": ("collections", "OrderedDict"), "nonstd": ("vp_sink", "hit"), "stdlib-unlisted": ("posix", "getpid")}
+LEAVES = {"allowed": ("collections", "OrderedDict"), "nonstd": ("vp_sink", "hit"), "stdlib-unlisted": ("posix", "getpid"),
+          # a dotted qualified name (protocol 4 attribute walk) that starts with an allow-listed name
+          "dotted-off-allowed": ("collections", "OrderedDict.fromkeys")}
 ADDITIONS = {"none": (), "loads": ("pickle.loads", "_pickle.loads"), "sink": ("vp_sink.hit",),
              "all": ("pickle.loads", "_pickle.loads", "vp_sink.hit")}
 ENTRIES = ("pickle.load", "pickle.loads", "_pickle.load", "_pickle.loads")
@@ -41,13 +43,22 @@ class _Carrier:
 def resolve(m, n):
     import importlib
 
-    return getattr(importlib.import_module(m), n)
+    obj = importlib.import_module(m)
+    for part in n.split("."):
+        obj = getattr(obj, part)
+    return obj
 
 
 def wrap(container, inner_global, inner_args):
     """Serialise 'call inner_global(*inner_args)' in the given container format."""
     import torch
 
+    if container == "bare" and "." in inner_global[1]:
+        from ..asm import sbu
+
+        body = [sbu(inner_global[0]), sbu(inner_global[1]), "STACK_GLOBAL"] + (["EMPTY_LIST", "TUPLE1"] if not inner_args else
+                                                                              [("BINBYTES", inner_args[0]), "TUPLE1"])
+        return asm(("PROTO", 4), *body, "REDUCE", "STOP")
     if container == "bare":
         body = [("GLOBAL", inner_global)]
         if inner_args:
